@@ -137,7 +137,7 @@ def run(tier, seed, which="C04"):
             rc, so, se = kv.run_cli(args + ["-o", outp, "--format", "fasta", "-n", "2"], stdin_bytes=stdin, timeout=60)
             if rc == 0 and os.path.exists(outp):
                 nm, rows = tokenize_out.tok_fasta(outp)
-                evs.append(dict(e="Obj", tag="out", null=0, status=3, rows=1, names=nm, seqs=rows))
+                evs.append(dict(e="Obj", tag="out", null=0, status=4, final=1, rows=1, names=nm, seqs=rows))
             else:
                 evs.append(dict(e="Obj", tag="out", null=1))
         cli_groups.append((i, evs, json.dumps(sc["seqs"])))
